@@ -11,7 +11,10 @@ length and next to every other call site:
   n = 4,5  the three homogeneous vectors + "one compact id" among plain ids / among bags, the compact id first or last
            (all labelled graphs are enumerated, so its position in the graph is arbitrary; thorough: every position)
 Before each table a decoy (same ids / names / kinds, no references, other texts) is parsed and resolved in the same
-process.  One table per (graph, kind vector, configs); every id is queried with get_resolved_res_configs(id) under mc/budget.py.
+process.  QUERY HISTORY: the ids of a table are queried one after the other on ONE parser object (id k after ids 0..k-1; since all
+labelled graphs are enumerated every query order occurs up to renaming); a failing query is re-judged on a fresh parser
+and with each single earlier query, and the witness carries the ordered history it needs ("|history" in the key).
+One table per (graph, kind vector, configs); every id is queried with get_resolved_res_configs(id) under mc/budget.py.
 (quick: two configurations for n <= 4 only; thorough: everywhere.)  Plain and compact ids live in type `string`, bags in
 type `array` (the slot of an id in the other type is a hole).
 
@@ -180,7 +183,7 @@ def judge_query(a, ref, rid, budget=BUDGET, frames=FRAMES):
     return None, events, "ok"
 
 
-def check_table(acc, n, f, kinds, ncfg, nodes=None):
+def check_table(acc, n, f, kinds, ncfg, nodes=None, before=None):
     from androguard.core import axml
     from gen import arscgen as G
     from ref import resolver as RR
@@ -203,10 +206,36 @@ def check_table(acc, n, f, kinds, ncfg, nodes=None):
     except Exception as e:      # noqa
         acc.harness_error("table %r does not parse: %s %s" % ((n, f, kinds, ncfg), type(e).__name__, e))
         return msgs
+    # QUERY HISTORY: the ids are queried one after the other on ONE parser object, so id k is judged after the queries for
+    # ids 0..k-1 (all labelled graphs are enumerated, so every query order occurs up to renaming).  `before` replays an
+    # explicit history first (witness replay); a failing query is re-judged on a fresh parser to find out whether it
+    # needs the history, and the witness carries the ordered list of earlier queries it needs.
+    asked = []
+    for b in (before or []):
+        judge_query(a, ref, rid_of(kinds, b))
+        asked.append(b)
     for node in (range(n) if nodes is None else nodes):
         rid = rid_of(kinds, node)
         cls, clen, tail, label = classify(n, f, node, kinds)
         msg, events, tag = judge_query(a, ref, rid)
+        history = list(asked)
+        asked.append(node)
+        if msg and history:
+            fresh = axml.ARSCParser(data)
+            fresh._analyse()
+            msg0 = judge_query(fresh, ref, rid)[0]
+            if msg0:
+                msg, history = msg0, []             # fails without any history
+            else:
+                for b in history:                   # one earlier query may be enough
+                    one = axml.ARSCParser(data)
+                    one._analyse()
+                    judge_query(one, ref, rid_of(kinds, b))
+                    m1 = judge_query(one, ref, rid)[0]
+                    if m1:
+                        msg, history = m1, [b]
+                        break
+                msg = "after get_resolved_res_configs for ids %r on the same parser: %s" % (history, msg)
         acc.case(outcome=(tag, cls, label, len(ref.reachable_values(rid))))
         if f[node] >= 0:
             acc.nt_disjoint += 1
@@ -214,8 +243,8 @@ def check_table(acc, n, f, kinds, ncfg, nodes=None):
         if "compact" in label and not cls.startswith("acyclic"):
             acc.count("cyclic_queries_through_compact")
         if msg:
-            key = "%s:%s%s%s" % (cls, label, "|cfg2" if ncfg == 2 else "", "|tail" if tail else "")
-            acc.violation(key, {"n": n, "f": list(f), "kinds": list(kinds), "ncfg": ncfg, "node": node}, msg)
+            key = "%s:%s%s%s%s" % (cls, label, "|cfg2" if ncfg == 2 else "", "|history" if history else "", "|tail" if tail else "")
+            acc.violation(key, {"n": n, "f": list(f), "kinds": list(kinds), "ncfg": ncfg, "node": node, "before": history}, msg)
             msgs.append(msg)
     return msgs
 
@@ -253,7 +282,7 @@ def _kinds_of(w):
 
 def replay(ctx, w):
     acc = Acc()
-    msgs = check_table(acc, w["n"], tuple(w["f"]), _kinds_of(w), w["ncfg"], nodes=[w["node"]])
+    msgs = check_table(acc, w["n"], tuple(w["f"]), _kinds_of(w), w["ncfg"], nodes=[w["node"]], before=w.get("before"))
     if acc.harness_errors:
         return "harness: " + acc.harness_errors[0]
     return msgs[0] if msgs else None
@@ -296,7 +325,12 @@ def minimal_witness(key):
         if len(ks) > k + 1:
             return None
         kinds = [ks[min(i, len(ks) - 1)] for i in range(k + 1)]
-    return {"n": len(f), "f": f, "kinds": kinds, "ncfg": 2 if "cfg2" in ex else 1, "node": 0}
+    w = {"n": len(f), "f": f, "kinds": kinds, "ncfg": 2 if "cfg2" in ex else 1, "node": 0, "before": []}
+    if "history" in ex:
+        if "tail" in ex or not cls.startswith("cycle") or k < 2:
+            return None
+        w["node"], w["before"] = 1, [0]         # ask the next id on the cycle after the first one
+    return w
 
 
 def finalize(ctx, acc):
@@ -310,9 +344,9 @@ def finalize(ctx, acc):
                 break
     for k, v in acc.viol.items():
         w = minimal_witness(k)
-        if w and "%s:%s" % classify(w["n"], tuple(w["f"]), 0, w["kinds"])[0::3] == split_key(k)[0]:
+        if w and "%s:%s" % classify(w["n"], tuple(w["f"]), w["node"], w["kinds"])[0::3] == split_key(k)[0]:
             probe = Acc()
-            msgs = check_table(probe, w["n"], tuple(w["f"]), tuple(w["kinds"]), w["ncfg"], nodes=[0])
+            msgs = check_table(probe, w["n"], tuple(w["f"]), tuple(w["kinds"]), w["ncfg"], nodes=[w["node"]], before=w["before"])
             if msgs:
                 v["witness"], v["msg"] = w, msgs[0]
     # vacuity / budget calibration
